@@ -48,6 +48,15 @@ type diffEvent struct {
 	AddedN   int    `json:"addedn"` // callbacks, to detect repeats that map to the same term
 	RemovedN int    `json:"removedn"`
 	LRes     string `json:"lres"`
+	// a full entry diff / node diff run right after diffs that their callbacks stopped at the first report: "ok" (same result as the
+	// first full run), "bad", or "" (not run)
+	AgainCb    string `json:"againcb"`
+	AgainLinks string `json:"againlinks"`
+	// node diffs repeated with one Load failing once: how many were run, how many returned an error, how many reported success
+	// with a result other than that of the undisturbed run
+	FaultRuns int `json:"faultruns"`
+	FaultErrs int `json:"faulterrs"`
+	FaultBad  int `json:"faultbad"`
 	Sync     string `json:"sync"`
 	ELoads   int    `json:"eloads"` // distinct names loaded by DiffIter
 	LLoads   int    `json:"lloads"` // distinct names loaded by DiffLinks
@@ -651,7 +660,8 @@ func diffCase(id int, seed int64, out *json.Encoder, big bool) {
 		beginAll()
 		added, removed, lres, lmsg := r.linkDiff(nm, o2)
 		sev = endAll()
-		_, ev.LLoads = distinctLoads(sev)
+		var ltotal int
+		ltotal, ev.LLoads = distinctLoads(sev)
 		ev.LRes = lres
 		if lmsg != "" {
 			ev.Msg += " | links: " + lmsg
@@ -711,6 +721,46 @@ func diffCase(id int, seed int64, out *json.Encoder, big bool) {
 			}
 			if !okc && ev.LRes == "ok" {
 				ev.LRes = "inexact"
+			}
+		}
+		// ---- again, after diffs stopped by their callbacks at the first report
+		sameNames := func(a, b []string) bool {
+			x, y := append([]string{}, a...), append([]string{}, b...)
+			sort.Strings(x)
+			sort.Strings(y)
+			return fmt.Sprint(x) == fmt.Sprint(y)
+		}
+		if lres == "ok" && ev.CbRes == "ok" {
+			nm, o2 = reopenBoth()
+			r.entryDiff(nm, o2, 1, 0)
+			guard(func() error {
+				return nm.DiffLinks(ctx, o2, func(bool, interface{}) (bool, error) { return false, nil })
+			})
+			cb2, res2, _ := r.entryDiff(nm, o2, 0, 0)
+			a2, r2, lres2, _ := r.linkDiff(nm, o2)
+			ev.AgainCb, ev.AgainLinks = "ok", "ok"
+			if res2 != "ok" || fmt.Sprint(cb2) != fmt.Sprint(ev.Cb) {
+				ev.AgainCb = "bad"
+			}
+			if lres2 != "ok" || !sameNames(a2, added) || !sameNames(r2, removed) {
+				ev.AgainLinks = "bad"
+			}
+		}
+		// ---- the node diff with one Load failing once (an error is fine; a success must be the same result)
+		if lres == "ok" && ev.Stores == "one" && !writerCache && ltotal > 0 {
+			for j := 0; j < 4; j++ {
+				nm, o2 = reopenBoth()
+				r.st.begin()
+				r.st.failLoadAt = 1 + rng.Intn(ltotal)
+				a3, r3, lres3, _ := r.linkDiff(nm, o2)
+				r.st.end()
+				ev.FaultRuns++
+				switch {
+				case lres3 == "err":
+					ev.FaultErrs++
+				case lres3 != "ok" || !sameNames(a3, added) || !sameNames(r3, removed):
+					ev.FaultBad++
+				}
 			}
 		}
 	}
